@@ -833,8 +833,10 @@ def model_check(ctx):
         runs.insert(0, ("statement: " + lab1 % 2, cfg("C_main", "{}", 2, "plain"), "stmt", ()))
         runs.append(("witnesses" + wl1, cfg("C_w", "{}", 1, "plain", wit), "wit", W1))
     par = max(1, min(len(runs), CAP // 2))
-    outs = parallel([(lambda c=c, k=k: tlc.run("Contexts", c, ctx.scratch, workers=1 if "wit" in k else max(1, min(4, CAP // par)),
-                                                env=JVM, timeout=3000))
+    # runs that must end in a violation search depth-first with one worker: a counter-example turns up after a few programs
+    dfs = {"JAVA_TOOL_OPTIONS": JVM["JAVA_TOOL_OPTIONS"] + " -Dtlc2.tool.queue.IStateQueue=StateDeque"}
+    outs = parallel([(lambda c=c, k=k: tlc.run("Contexts", c, ctx.scratch, workers=1 if ("wit" in k or k == "viol") else max(1, min(4, CAP // par)),
+                                                env=dfs if k == "viol" else JVM, timeout=3000))
                      for (_, c, k, _) in runs], max_workers=par)
     nw = 0
     for (label, _, kind, expect), res in zip(runs, outs):
